@@ -300,6 +300,385 @@ def ob_mul_add_small(cx, nl, base, timeout_ms):
     return 'held', None, len(outs)
 
 
+
+# ------------------------------------------------------------------------------------------------ division: loop induction
+def _succ_labels(blk):
+    t = blk.instrs[-1]
+    if t.op != 'br':
+        return []
+    return [x for i, x in enumerate(t.t) if i > 0 and t.t[i - 1] == 'label']
+
+
+def loop_header(fn):
+    """first block (layout order) that is the target of a back edge: the header of the outermost first loop"""
+    pos = {b: i for i, b in enumerate(fn.order)}
+    for b in fn.order:
+        for p in fn.order[pos[b]:]:
+            if b in _succ_labels(fn.blocks[p]):
+                return b
+    return None
+
+
+def header_counter(fn, header):
+    """register of the alloca the loop header loads first (the loop counter)"""
+    for ins in fn.blocks[header].instrs:
+        if ins.op == 'load':
+            return [x for x in ins.t if x.startswith('%')][-1]
+    return None
+
+
+def _n(a, who):
+    from lirsym.core import conc_val
+    n = conc_val(a)
+    if n is None or not 0 < n <= 8:
+        raise Inconclusive('%s: limb count is not a small constant' % who)
+    return n
+
+
+def _is_zero_contract(nl):
+    def f(ex_, st_, a_, work_):
+        v = st_.mem.load(st_, a_[0], 8 * _n(a_[1], 'is_zero'))
+        return z3.If(v == 0, bv(1, 1), bv(0, 1))
+    return f
+
+
+def ob_div_loop(cx, nl, timeout_ms, bits_=None):
+    """ferret_div_mod_u_limbs as three inductive obligations on the real loop (any numerator, any non-zero divisor):
+    INIT  from the entry every path reaches the loop header with quot = rem = 0 and bit = N-1 (a path that returns without
+          entering the loop must return exactly udiv/urem);
+    STEP  ONE iteration from an ARBITRARY state at the header with 0 <= bit < N, rem < denom, rem <= numer >> (bit+1):
+          rem' = 2 rem + numer[bit] - q denom with q = (2 rem + numer[bit] >= denom) computed without overflow (N+1 bits),
+          quot' = quot | q << bit, bit' = bit - 1, rem' < denom, rem' <= numer >> bit, operands untouched;
+    EXIT  from the header with bit = -1 the function returns true and leaves quot and rem as they are.
+    With the textbook argument (numer >> (bit+1) = (quot >> (bit+1)) denom + rem is preserved by STEP) this gives
+    quot = numer div denom and rem = numer mod denom for every operand pair."""
+    fname = '@ferret_div_mod_u_limbs'
+    fn = cx.mod.funcs[fname]
+    N = 64 * nl
+    header = loop_header(fn)
+    if header is None:
+        return 'violation', {'what': 'no loop found in %s' % fname}, 0
+    cnt_reg = header_counter(fn, header)
+    ex, solver = mk_exec(cx, timeout_ms)
+    ex.overrides['@ferret_is_zero_limbs'] = _is_zero_contract(nl)
+    ex.overrides['@ferret_cmp_u_limbs'] = _cmp_u_contract(nl)
+    ex.overrides['@ferret_sub_limbs'] = _sub_contract(nl)
+    st = ex.new_state()
+    NUM = [z3.BitVec('n%d' % i, 64) for i in range(nl)]
+    DEN = [z3.BitVec('d%d' % i, 64) for i in range(nl)]
+    rn, rd = put(st, 'numer', NUM), put(st, 'denom', DEN)
+    rq = st.mem.alloc(8 * nl, name='quot', kind='heap')
+    rr = st.mem.alloc(8 * nl, name='rem', kind='heap')
+    n, d = val(NUM), val(DEN)
+    ex.stop_at = (fname, header)
+    outs = ex.run(fname, [st.mem.ptr(rn), st.mem.ptr(rd), st.mem.ptr(rq), st.mem.ptr(rr), bv(nl, 32)], pre=(d != 0), st=st)
+    cx.funcs |= ex.encoded
+    paths = len(outs)
+    stopped = [o for o in outs if o.kind == 'stopped']
+
+    def cex(m, extra=None):
+        nv, dv = model_ints(m, NUM), model_ints(m, DEN)
+        x = sum(v << (64 * i) for i, v in enumerate(nv))
+        y = sum(v << (64 * i) for i, v in enumerate(dv))
+        out = {'numer': nv, 'denom': dv}
+        if y:
+            out['expected_quot'] = x // y
+            out['expected_rem'] = x % y
+            out['replay'] = replay_divmod(nl, nv, dv, x // y, x % y)
+        if extra:
+            out.update(extra)
+        return out
+    # INIT
+    for o in outs:
+        if o.kind == 'stopped':
+            q0 = o.mem.load(o.state, o.mem.ptr(rq), 8 * nl)
+            r0 = o.mem.load(o.state, o.mem.ptr(rr), 8 * nl)
+            fr = o.state.frames[-1]
+            k0 = o.mem.load(o.state, fr.regs[cnt_reg], 4)
+            r, m = solver.check(list(o.pc) + [z3.Or(q0 != 0, r0 != 0, k0 != bv(N - 1, 32))])
+            if r == 'unknown':
+                return 'unknown', None, paths
+            if r == 'sat':
+                return 'violation', cex(m, {'what': 'INIT: loop entered with quot/rem not zero or bit != N-1'}), paths
+        elif o.kind == 'ret':
+            # a path that never enters the loop: must already deliver the exact quotient and remainder
+            q0 = o.mem.load(o.state, o.mem.ptr(rq), 8 * nl)
+            r0 = o.mem.load(o.state, o.mem.ptr(rr), 8 * nl)
+            bad = z3.Or(q0 != z3.UDiv(n, d), r0 != z3.URem(n, d))
+            if o.ret is not None:
+                bad = z3.Or(bad, z3.Extract(0, 0, o.ret) != bv(1, 1))
+            r, m = solver.check(list(o.pc) + [bad])
+            if r == 'unknown':
+                return 'unknown', None, paths
+            if r == 'sat':
+                return 'violation', cex(m, {'what': 'a path returns without entering the division loop and its result is not numer div/mod denom'}), paths
+        else:
+            r, m = solver.check(list(o.pc))
+            if r == 'sat':
+                return 'violation', cex(m, {'what': 'path ends with %s: %s' % (o.kind, o.detail)}), paths
+            if r == 'unknown':
+                return 'unknown', None, paths
+    if not stopped:
+        return 'held', None, paths       # no loop path at all: every path was checked against udiv/urem above
+    # STEP: patch the first arrival into an arbitrary invariant state
+    base = stopped[0].state
+    k = z3.BitVec('bit', 32)
+    R = [z3.BitVec('r%d' % i, 64) for i in range(nl)]
+    Q = [z3.BitVec('q%d' % i, 64) for i in range(nl)]
+
+    def patched(kterm, extra_pc):
+        s = base.clone()
+        fr = s.frames[-1]
+        fr.visits = {fr.block: 1}
+        s.mem.store(s, fr.regs[cnt_reg], kterm, 4)
+        for i in range(nl):
+            s.mem.store(s, s.mem.ptr(s.mem.regions[rr.id], 8 * i), R[i], 8)
+            s.mem.store(s, s.mem.ptr(s.mem.regions[rq.id], 8 * i), Q[i], 8)
+        s.pc = list(s.pc) + extra_pc
+        return s
+    rem, quot = val(R), val(Q)
+    if bits_ is not None:
+        # the bit position is case-split into concrete values (each case is one STEP obligation); INIT/EXIT as before
+        for kc in bits_:
+            res = _div_step(cx, ex, solver, patched, bv(kc, 32), NUM, DEN, R, Q, rn, rd, rq, rr, cnt_reg, nl, cex)
+            paths += res[2]
+            if res[0] != 'held':
+                return res[0], res[1], paths
+    else:
+        res = _div_step(cx, ex, solver, patched, k, NUM, DEN, R, Q, rn, rd, rq, rr, cnt_reg, nl, cex)
+        paths += res[2]
+        if res[0] != 'held':
+            return res[0], res[1], paths
+    # EXIT
+    s2 = patched(bv(-1, 32), [])
+    outs2 = ex.explore([s2])
+    paths += len(outs2)
+    for o in outs2:
+        if o.kind != 'ret' or o.ret is None:
+            return 'violation', {'what': 'EXIT: with bit = -1 the function does not return (%s %s)' % (o.kind, o.detail)}, paths
+        q1 = o.mem.load(o.state, o.mem.ptr(o.mem.regions[rq.id]), 8 * nl)
+        r1 = o.mem.load(o.state, o.mem.ptr(o.mem.regions[rr.id]), 8 * nl)
+        r, m = solver.check(list(o.pc) + [z3.Or(q1 != quot, r1 != rem, z3.Extract(0, 0, o.ret) != bv(1, 1))])
+        if r == 'unknown':
+            return 'unknown', None, paths
+        if r == 'sat':
+            return 'violation', {'what': 'EXIT: leaving the loop changes quot/rem or does not return true'}, paths
+    return 'held', None, paths
+
+
+def _div_step(cx, ex, solver, patched, k, NUM, DEN, R, Q, rn, rd, rq, rr, cnt_reg, nl, cex):
+    N = 64 * nl
+    n, d, rem, quot = val(NUM), val(DEN), val(R), val(Q)
+    paths = 0
+    kN = z3.ZeroExt(N - 32, k)
+    inv = [k >= 0, k < bv(N, 32), z3.ULT(rem, d), z3.ULE(rem, z3.LShR(n, kN + 1))]
+    s1 = patched(k, inv)
+    outs1 = ex.explore([s1])
+    paths += len(outs1)
+    W = N + 1
+    b = z3.Extract(0, 0, z3.LShR(n, kN))
+    R2 = (z3.ZeroExt(1, rem) << 1) | z3.ZeroExt(W - 1, b)
+    qbit = z3.UGE(R2, z3.ZeroExt(1, d))
+    Rn = z3.If(qbit, R2 - z3.ZeroExt(1, d), R2)
+    exp_rem = z3.Extract(N - 1, 0, Rn)
+    exp_quot = z3.If(qbit, quot | (bv(1, N) << kN), quot)
+    seen_stop = False
+    for o in outs1:
+        if o.kind != 'stopped':
+            r, m = solver.check(list(o.pc))
+            if r == 'sat':
+                return 'violation', {'what': 'STEP: one iteration ends with %s (%s) instead of returning to the loop header' % (o.kind, o.detail),
+                                     'state': {'bit': model_ints(m, [k])[0], 'rem': model_ints(m, R), 'numer': model_ints(m, NUM), 'denom': model_ints(m, DEN)}}, paths
+            if r == 'unknown':
+                return 'unknown', None, paths
+            continue
+        seen_stop = True
+        fr = o.state.frames[-1]
+        q1 = o.mem.load(o.state, o.mem.ptr(o.mem.regions[rq.id]), 8 * nl)
+        r1 = o.mem.load(o.state, o.mem.ptr(o.mem.regions[rr.id]), 8 * nl)
+        k1 = o.mem.load(o.state, fr.regs[cnt_reg], 4)
+        n1 = o.mem.load(o.state, o.mem.ptr(o.mem.regions[rn.id]), 8 * nl)
+        d1 = o.mem.load(o.state, o.mem.ptr(o.mem.regions[rd.id]), 8 * nl)
+        bad = z3.Or(r1 != exp_rem, q1 != exp_quot, k1 != k - 1, n1 != n, d1 != d,
+                    z3.Not(z3.ULT(Rn, z3.ZeroExt(1, d))), z3.Not(z3.ULE(exp_rem, z3.LShR(n, kN))))
+        r, m = solver.check(list(o.pc) + [bad])
+        if r == 'unknown':
+            return 'unknown', None, paths
+        if r == 'sat':
+            return 'violation', cex(m, {'what': 'STEP: one iteration of the shift-subtract loop does not implement rem,quot := step(rem,quot)',
+                                        'state': {'bit': model_ints(m, [k])[0], 'rem': model_ints(m, R), 'quot': model_ints(m, Q)}}), paths
+    if not seen_stop:
+        return 'violation', {'what': 'STEP: no path returns to the loop header'}, paths
+    # vacuity of STEP: the invariant state is reachable at all
+    r, _ = solver.check(list(s1.pc))
+    if r != 'sat':
+        return 'unknown', None, paths
+    return 'held', None, paths
+
+
+def _cmp_u_contract(nl):
+    def f(ex_, st_, a_, work_):
+        k = _n(a_[2], 'cmp_u')
+        x = st_.mem.load(st_, a_[0], 8 * k)
+        y = st_.mem.load(st_, a_[1], 8 * k)
+        return z3.If(z3.ULT(x, y), bv(-1, 32), z3.If(z3.UGT(x, y), bv(1, 32), bv(0, 32)))
+    return f
+
+
+def _sub_contract(nl):
+    # out = a - b mod 2^N: discharged by the bin/<T>/sub obligations (the *_sub_ptr entry points are ferret_sub_limbs)
+    def f(ex_, st_, a_, work_):
+        k = _n(a_[3], 'sub')
+        x = st_.mem.load(st_, a_[0], 8 * k)
+        y = st_.mem.load(st_, a_[1], 8 * k)
+        st_.mem.store(st_, a_[2], x - y, 8 * k)
+        return None
+    return f
+
+
+def _negate_contract(nl):
+    def f(ex_, st_, a_, work_):
+        k = _n(a_[1], 'negate')
+        x = st_.mem.load(st_, a_[0], 8 * k)
+        st_.mem.store(st_, a_[0], -x, 8 * k)
+        return None
+    return f
+
+
+def ob_negate(cx, nl, timeout_ms):
+    """discharges the contract of ferret_negate_limbs: v := -v mod 2^N"""
+    ex, solver = mk_exec(cx, timeout_ms)
+    st = ex.new_state()
+    A = [z3.BitVec('a%d' % i, 64) for i in range(nl)]
+    ra = put(st, 'a', A)
+    outs = ex.run('@ferret_negate_limbs', [st.mem.ptr(ra), bv(nl, 32)], st=st)
+    cx.funcs |= ex.encoded
+    for o in outs:
+        if o.kind != 'ret':
+            return 'violation', {'what': 'path ends with %s' % o.kind}, len(outs)
+        out = o.mem.load(o.state, o.mem.ptr(o.mem.regions[ra.id]), 8 * nl)
+        r, m = solver.check(list(o.pc) + [out != -val(A)])
+        if r == 'unknown':
+            return 'unknown', None, len(outs)
+        if r == 'sat':
+            return 'violation', {'a': model_ints(m, A), 'what': 'ferret_negate_limbs'}, len(outs)
+    return 'held', None, len(outs)
+
+
+def ob_cmp_u(cx, nl, timeout_ms):
+    """discharges the contract the division obligations use for ferret_cmp_u_limbs: sign of the result = unsigned order"""
+    ex, solver = mk_exec(cx, timeout_ms)
+    st = ex.new_state()
+    A = [z3.BitVec('a%d' % i, 64) for i in range(nl)]
+    B = [z3.BitVec('b%d' % i, 64) for i in range(nl)]
+    ra, rb = put(st, 'a', A), put(st, 'b', B)
+    outs = ex.run('@ferret_cmp_u_limbs', [st.mem.ptr(ra), st.mem.ptr(rb), bv(nl, 32)], st=st)
+    cx.funcs |= ex.encoded
+    a, b = val(A), val(B)
+    for o in outs:
+        if o.kind != 'ret' or o.ret is None:
+            return 'violation', {'what': 'path ends with %s' % o.kind}, len(outs)
+        bad = z3.Or((o.ret < 0) != z3.ULT(a, b), (o.ret > 0) != z3.UGT(a, b), (o.ret == 0) != (a == b))
+        r, m = solver.check(list(o.pc) + [bad])
+        if r == 'unknown':
+            return 'unknown', None, len(outs)
+        if r == 'sat':
+            return 'violation', {'a': model_ints(m, A), 'b': model_ints(m, B), 'what': 'ferret_cmp_u_limbs'}, len(outs)
+    return 'held', None, len(outs)
+
+
+def ob_is_zero(cx, nl, timeout_ms):
+    ex, solver = mk_exec(cx, timeout_ms)
+    st = ex.new_state()
+    A = [z3.BitVec('a%d' % i, 64) for i in range(nl)]
+    ra = put(st, 'a', A)
+    outs = ex.run('@ferret_is_zero_limbs', [st.mem.ptr(ra), bv(nl, 32)], st=st)
+    cx.funcs |= ex.encoded
+    for o in outs:
+        if o.kind != 'ret' or o.ret is None:
+            return 'violation', {'what': 'path ends with %s' % o.kind}, len(outs)
+        r, m = solver.check(list(o.pc) + [(z3.Extract(0, 0, o.ret) == bv(1, 1)) != (val(A) == 0)])
+        if r == 'unknown':
+            return 'unknown', None, len(outs)
+        if r == 'sat':
+            return 'violation', {'a': model_ints(m, A), 'what': 'ferret_is_zero_limbs'}, len(outs)
+    return 'held', None, len(outs)
+
+
+def ob_divmod_wrapper(cx, T, op, timeout_ms):
+    """div / mod entry points over the CONTRACT of ferret_div_mod_u_limbs (quot = DIVU(n,d), rem = REMU(n,d), true, for
+    d != 0 - discharged by ob_div_loop): unsigned = DIVU/REMU, signed = the SMT-LIB definition of bvsdiv / bvsrem
+    (magnitudes divided, quotient negated when the signs differ, remainder takes the sign of the dividend)."""
+    nl, signed = TYPES[T]
+    bits = 64 * nl
+    DIVU = z3.Function('divu_%d' % bits, z3.BitVecSort(bits), z3.BitVecSort(bits), z3.BitVecSort(bits))
+    REMU = z3.Function('remu_%d' % bits, z3.BitVecSort(bits), z3.BitVecSort(bits), z3.BitVecSort(bits))
+    ex, solver = mk_exec(cx, timeout_ms)
+
+    def contract(ex_, st_, a_, work_):
+        x = st_.mem.load(st_, a_[0], 8 * nl)
+        y = st_.mem.load(st_, a_[1], 8 * nl)
+        ok, _ = st_.solver.feasible(st_.pc, y == 0)
+        if ok:
+            raise Inconclusive('divisor can be zero at the call of ferret_div_mod_u_limbs')
+        st_.mem.store(st_, a_[2], DIVU(x, y), 8 * nl)
+        st_.mem.store(st_, a_[3], REMU(x, y), 8 * nl)
+        return bv(1, 1)
+    ex.overrides['@ferret_div_mod_u_limbs'] = contract
+    ex.overrides['@ferret_negate_limbs'] = _negate_contract(nl)
+    st = ex.new_state()
+    A = [z3.BitVec('a%d' % i, 64) for i in range(nl)]
+    B = [z3.BitVec('b%d' % i, 64) for i in range(nl)]
+    ra, rb = put(st, 'a', A), put(st, 'b', B)
+    ro = st.mem.alloc(8 * nl, name='out', kind='heap')
+    a, b = val(A), val(B)
+    outs = ex.run('@ferret_%s_%s_ptr' % (T, op), [st.mem.ptr(ra), st.mem.ptr(rb), st.mem.ptr(ro)], pre=(b != 0), st=st)
+    cx.funcs |= ex.encoded
+    if signed:
+        na, nb = a < 0, b < 0
+        absa, absb = z3.If(na, -a, a), z3.If(nb, -b, b)
+        if op == 'div':
+            ref = z3.If(na != nb, -DIVU(absa, absb), DIVU(absa, absb))
+        else:
+            ref = z3.If(na, -REMU(absa, absb), REMU(absa, absb))
+    else:
+        ref = DIVU(a, b) if op == 'div' else REMU(a, b)
+    for o in outs:
+        if o.kind != 'ret':
+            return 'violation', {'what': 'path ends with %s: %s' % (o.kind, o.detail)}, len(outs)
+        out = o.mem.load(o.state, o.mem.ptr(ro), 8 * nl)
+        r, m = solver.check(list(o.pc) + [out != ref])
+        if r == 'unknown':
+            return 'unknown', None, len(outs)
+        if r == 'sat':
+            av, bvv = model_ints(m, A), model_ints(m, B)
+            x = sum(v << (64 * i) for i, v in enumerate(av))
+            y = sum(v << (64 * i) for i, v in enumerate(bvv))
+            if signed:
+                x, y = to_signed(x, bits), to_signed(y, bits)
+            qq = abs(x) // abs(y)
+            if (x < 0) != (y < 0):
+                qq = -qq
+            rr_ = abs(x) % abs(y)
+            if x < 0:
+                rr_ = -rr_
+            exp = (qq if op == 'div' else rr_) % (1 << bits)
+            return 'violation', {'a': av, 'b': bvv, 'expected': exp, 'what': 'sign / operand handling of the %s wrapper' % op,
+                                 'replay': replay_binary(T, op, av, bvv, exp)}, len(outs)
+    return 'held', None, len(outs)
+
+
+def replay_divmod(nl, numer, denom, eq, er):
+    T = 'u128' if nl == 2 else 'u256'
+    body = '''#include <stdio.h>
+#include "bigint.h"
+int main(void) { ferret_%(T)s a = {%(a)s}, b = {%(b)s}, q, r; ferret_%(T)s_div_ptr(&a, &b, &q); ferret_%(T)s_mod_ptr(&a, &b, &r);
+  for (int i = %(nl)d - 1; i >= 0; i--) printf("%%016llx", (unsigned long long)q.words[i]); printf(" ");
+  for (int i = %(nl)d - 1; i >= 0; i--) printf("%%016llx", (unsigned long long)r.words[i]); printf("\\n"); return 0; }''' % {'T': T, 'a': _limbs_c(numer), 'b': _limbs_c(denom), 'nl': nl}
+    rc, so, se = cir.run_c_driver('dm', body, ['core/bigint.c'])
+    want = '%0*x %0*x' % (16 * nl, eq, 16 * nl, er)
+    return {'native': so.strip(), 'expected': want, 'reproduced': rc != 0 or so.strip() != want, 'rc': rc, 'stderr': se[-300:]}
+
 # ------------------------------------------------------------------------------------------------ native replays
 def replay_mul_add_small(nl, v, base, digit, exp):
     body = '''#include <stdio.h>
@@ -371,6 +750,16 @@ def _job(args):
             r = ob_mul_add_small(cx, args[1], args[2], args[3])
         elif kind == 'fromstr':
             r = ob_from_string(cx, args[1], args[2], args[3], args[4])
+        elif kind == 'divloop':
+            r = ob_div_loop(cx, args[1], args[-1], bits_=(args[2] if len(args) > 3 else None))
+        elif kind == 'iszero':
+            r = ob_is_zero(cx, args[1], args[2])
+        elif kind == 'cmpu':
+            r = ob_cmp_u(cx, args[1], args[2])
+        elif kind == 'negate':
+            r = ob_negate(cx, args[1], args[2])
+        elif kind == 'divwrap':
+            r = ob_divmod_wrapper(cx, args[1], args[2], args[3])
         else:
             raise ValueError(kind)
         status, detail, paths = r
@@ -414,6 +803,13 @@ def main():
     for nl in (2, 4):
         for base in (10, 16, 8, 2):
             jobs.append(('mas', nl, base, tmo))
+        jobs.append(('divloop', nl, tmo))
+        jobs.append(('iszero', nl, tmo))
+        jobs.append(('cmpu', nl, tmo))
+        jobs.append(('negate', nl, tmo))
+    for T in TYPES:
+        for op in ('div', 'mod'):
+            jobs.append(('divwrap', T, op, tmo))
     digs = {'quick': {'u128': [1, 4], 'i128': [3], 'u256': [2], 'i256': [3]},
             'thorough': {'u128': [1, 5, 8], 'i128': [3, 8], 'u256': [2, 8], 'i256': [3, 8]}}[tier_]
     for T, ls in digs.items():
@@ -453,9 +849,9 @@ def main():
            'obligations': len(jobs), 'obligations_held': sum(1 for r in results if r['status'] == 'held'), 'obligation_table': rows,
            'functions_encoded': sorted(funcs), 'llvm_instructions_executed': agg.instrs, 'queries': agg.queries, 'queries_unsat': agg.unsat,
            'queries_sat': agg.sat, 'queries_unknown': agg.unknown, 'solver_s': round(agg.solver_s, 2),
-           'bounds': 'all limb values (2^128 / 2^256 operand spaces) for add sub and or xor not eq lt gt from/to 64; mul for 128-bit types; mul by schoolbook identity over uninterpreted 64x64->128 products (range-constrained); decimal from_string for the digit counts listed in obligation_table (every digit symbolic) plus ONE INDUCTIVE STEP of the accumulation (ferret_mul_add_small from an arbitrary limb state, bases 10/16/8/2), which covers texts of any length given that parse_uint only iterates that step; limb loops fully unrolled',
+           'bounds': 'all limb values (2^128 / 2^256 operand spaces) for add sub and or xor not eq lt gt from/to 64; mul for 128-bit types; mul by schoolbook identity over uninterpreted 64x64->128 products (range-constrained); decimal from_string for the digit counts listed in obligation_table (every digit symbolic) plus ONE INDUCTIVE STEP of the accumulation (ferret_mul_add_small from an arbitrary limb state, bases 10/16/8/2), which covers texts of any length given that parse_uint only iterates that step; div/mod: INIT / STEP / EXIT obligations on the real shift-subtract loop of ferret_div_mod_u_limbs (one iteration from an arbitrary state satisfying rem < denom and rem <= numer >> (bit+1), bit symbolic in [0,N)), for 2 and 4 limbs, over contracts for is_zero / cmp_u / sub / negate that are discharged by their own obligations, plus the eight div/mod entry points over the contract of the divider (signed = SMT-LIB bvsdiv/bvsrem definition); limb loops fully unrolled',
            'explanation': 'The clang -O0 LLVM IR of runtime/core/bigint.c is executed symbolically from the *_ptr entry points the compiler calls, operands are regions of symbolic 64-bit limbs, and z3 decides equality with bit-vector arithmetic at width N. Counterexamples are replayed through a C driver built with ASan/UBSan.',
-           'not_covered': 'div/mod/pow/to_string (bit loops need an inductive invariant, not built), 256-bit mul and the signed multiply wrappers (solver unknown within the cap; attempted only in the thorough tier), shifts (no *_ptr entry point), whole-function hex/octal/binary from_string (their accumulation step is covered)'}
+           'not_covered': 'pow and to_string (not built); division by zero (excluded by assume: the wrappers return 0); the textbook induction that turns INIT/STEP/EXIT into quot = numer div denom is a paper argument; 256-bit mul and the signed multiply wrappers (solver unknown within the cap; attempted only in the thorough tier), shifts (no *_ptr entry point), whole-function hex/octal/binary from_string (their accumulation step is covered)'}
     sys.exit(rep.finish(cov, ['clang-14 front end: -O0 IR is the source statement by statement; optimiser/code generator of the C compiler that builds libferret_runtime.a are trusted',
                               'LLVM semantics in lirsym/llvm.py (nsw/nuw ignored = wrapping); libc summaries malloc/free/memcpy/memset/strlen',
                               'z3 bit-vector theory; per-obligation timeout, unknown = inconclusive']))
